@@ -49,8 +49,11 @@ func OverlappingTables(tables []TableMeta, kr KeyRange) (int, int) {
 	left := sort.Search(len(tables), func(i int) bool {
 		return utils.CompareKeys(kr.Left, tables[i].MaxKey) <= 0
 	})
+	// The first table that starts beyond kr.Right ends the overlap. (Comparing
+	// with MaxKey here left out a table that starts inside the range and ends
+	// beyond it, which then stayed in the level next to the compaction output.)
 	right := sort.Search(len(tables), func(i int) bool {
-		return utils.CompareKeys(kr.Right, tables[i].MaxKey) < 0
+		return utils.CompareKeys(kr.Right, tables[i].MinKey) < 0
 	})
 	return left, right
 }
